@@ -987,4 +987,25 @@ def _sel_platform_created_by_global_variable(f):
     return not any(op[0] == 'setpstage' and op[2] == platform for op in hist)
 
 
-KNOWN_SELECTORS = {'platform_created_by_global_variable_lacks_stages': _sel_platform_created_by_global_variable}
+def _sel_lenient_conversion_result_served_to_strict_query(f):
+    """get_component_configuration(..., ignore_convert_errors=True) stores its partially converted result in the cache
+    under the label of the regular query (ignore_convert_errors is not part of the caching condition); a later strict
+    query of the same component/platform is served that result instead of raising
+    FlowIRFailedComponentConvertType as a from-scratch object does."""
+    o = f.get('observed') or {}
+    case = f.get('case') or {}
+    if o.get('kind') != 'live-answers-scratch-raises' or o.get('flavour') != 'resolved-after-modes':
+        return False
+    if o.get('live') != 'ok' or o.get('scratch') != 'FlowIRFailedComponentConvertType':
+        return False
+    spec = SPECS.get(case.get('init'))
+    if spec is None:
+        return False
+    # the only component with an option that cannot be converted is c1 after it was re-added
+    hist = [list(op) for op in (case.get('history') or [])]
+    return ['add', 1] in hist and list((o.get('pair') or [None])[0] or []) == list(spec['comps'][1])
+
+
+KNOWN_SELECTORS = {'platform_created_by_global_variable_lacks_stages': _sel_platform_created_by_global_variable,
+                   'lenient_conversion_result_served_to_strict_query':
+                       _sel_lenient_conversion_result_served_to_strict_query}
